@@ -1,12 +1,1938 @@
-//! C03 — monitor not built yet (stub so that the registry is complete).
+//! C03 — merging abstract values over-approximates both inputs and is stable.
+//!
+//! Monitor shape: the real `merge` / `merge_with` of every domain in scope is executed on
+//! generated values; an independent concretisation γ (written here from the documentation of
+//! the domains, never by calling merge or copying its algorithm) decides every execution by
+//! pointwise set inclusion:
+//!
+//!   (1) γ(a) ∪ γ(b) ⊆ γ(a ⊔ b)                       over-approximation
+//!   (2) γ(a ⊔ a) = γ(a)   (also for m = a ⊔ b)        self-merge
+//!   (3) for m = a ⊔ b: γ(m ⊔ b) ⊆ γ(m), γ(m ⊔ a) ⊆ γ(m)   stability
+//!   (4) the same three for `merge_with`, and γ(merge_with) = γ(merge)
+//!
+//! ## What "stable" means here (decision, see also the final report)
+//! The statement says: "Merging a value with something it already absorbed does not enlarge its
+//! *represented set*". It is therefore a statement about γ only. `IntervalDomain` carries
+//! bookkeeping that is *not* part of γ (widening hints, `widening_delay`); the code documents
+//! that the delay is `max` of the inputs on merges and is reset to the interval length after a
+//! widening, and that hints are consumed by a widening and re-acquired from the inputs on the
+//! next merge. Hence `m.merge(b)` may legitimately differ from `m` structurally (other delay,
+//! hints re-added) although nothing new is represented. Structural (in)equality is therefore
+//! only recorded as an observation; the verdict is `γ(m.merge(b)) ⊆ γ(m)`. This is exactly the
+//! documented intent of `signed_merge_and_widen`: "If the merged interval equals one of the
+//! input intervals as value sets, do not perform widening" — so re-merging an absorbed value
+//! must never widen, whatever the delay counter says. For the same reason `merge_with` is
+//! compared with `merge` by γ; a structural difference is an observation, not a violation.
+//!
+//! γ per domain (from the docs):
+//! * `BitvectorDomain`: `Value v ↦ {v}`, `Top ↦` all values of the width.
+//! * `IntervalDomain`: `{start, start+stride, …, end}` as signed values of the width
+//!   (x is a member iff `start ≤s x ≤s end` and `stride | x−start`, `stride = 0` ⇒ `x = start`);
+//!   hints and delay do not change γ. 1-byte intervals: γ is a 256-bit bitmap built by testing
+//!   every one of the 256 values (exhaustive by members).
+//! * `DataDomain<T>`: `{(id,o) | o ∈ γ(rel[id])} ∪ {(abs,v) | v ∈ γ(abs)}`, everything if `contains_top`.
+//! * `Taint`: `Top ↦ {untainted}`, `Tainted ↦ {untainted, tainted}` (Top ⊑ Tainted).
+//! * `DomainMap`: pointwise per key; a missing key means: `UnionMergeStrategy` no value (∅),
+//!   `IntersectMergeStrategy` unconstrained, `MergeTopStrategy` the value domain's `top()`.
+//! * `MemRegion<T>`: pointwise per cell `(offset,size)`; a missing cell is unconstrained; a cell
+//!   of the merge is admissible iff the input holds a cell at the same offset and size that it
+//!   contains, or the merged cell represents everything.
+
+use crate::conv::*;
 use crate::core::*;
+use crate::pref::V;
+use crate::prng::{mix, Rng};
+use cwe_checker_lib::abstract_domain::*;
+use cwe_checker_lib::analysis::taint::Taint;
+use cwe_checker_lib::intermediate_representation::*;
+use serde::Deserialize;
+use serde_json::{json, Value};
+use std::collections::{BTreeMap, BTreeSet};
 
 pub fn info() -> CheckInfo {
     CheckInfo {
         id: "C03",
-        rule: "(monitor not built yet)",
-        assumptions: &[],
-        run: |_cfg| Report::new(),
-        replay: |_cfg, _case| Report::new(),
+        rule: "real merge/merge_with of BitvectorDomain, IntervalDomain (hints+delays, widths 1/2/4/8/16), DataDomain<Interval|Bitvector>, Taint, DomainMap<u64,V,{Union,Intersect,MergeTop}> and MemRegion<V> executed on generated pairs and on merge chains ((a⊔b)⊔c…, incl. acc⊔(acc±c) loop-counter chains); an independent γ decides γ(a)∪γ(b)⊆γ(a⊔b), γ(a⊔a)=γ(a), γ(m⊔b)⊆γ(m), and γ(merge_with)=γ(merge); 1-byte sets are 256-bit member bitmaps; BitvectorDomain 1-byte, Taint and a 1-byte interval mini-universe are exhaustive over pairs. non-trivial = γ(a)≠γ(b) and the merge does not represent everything; distinct = hash of (domain kind, both input specs) resp. (chain spec, step)",
+        assumptions: &[
+            "γ of every domain is the one written in the module documentation (taken from the crate's doc comments and DESIGN.md C02/C03)",
+            "interval inputs are well-formed (start<=s end, stride=0 iff start=end, stride | end-start); widening hints are only installed through the public update_widening_{lower,upper}_bound API or produced by the code itself in chains (reachable states); the delay is set via serde to {0, small, length, huge}",
+            "both operands of a merge have the same byte size (the domains document different sizes as different posets); values stored under one map key / one memory cell offset+size have that size",
+            "MemRegion inputs are built with insert_at_byte_index from non-overlapping cells; DomainMap<_, Taint, IntersectMergeStrategy> is not driven (the strategy documents that Top must be maximal)",
+            "stability and merge_with agreement are judged on the represented set γ, not on structural equality (widening_delay and hints legitimately change)",
+            "verdicts on the release profile (wrapping overflow in the widening threshold is documented behaviour)",
+        ],
+        run,
+        replay,
     }
+}
+
+// ---------------------------------------------------------------------------
+// Small numeric helpers (signed values of a width are carried as i128)
+
+fn smin(w: u32) -> i128 {
+    if w >= 16 {
+        i128::MIN
+    } else {
+        -(1i128 << (8 * w - 1))
+    }
+}
+fn smax(w: u32) -> i128 {
+    if w >= 16 {
+        i128::MAX
+    } else {
+        (1i128 << (8 * w - 1)) - 1
+    }
+}
+fn bvs(x: i128, w: u32) -> Bitvector {
+    to_bv(V::from_i(x, w))
+}
+fn sval(bv: &Bitvector) -> i128 {
+    from_bv(bv).s()
+}
+fn clampw(x: i128, w: u32) -> i128 {
+    x.clamp(smin(w), smax(w))
+}
+/// Unsigned distance `hi - lo` for `lo <= hi` (exact also for 16 bytes).
+fn udist(lo: i128, hi: i128) -> u128 {
+    (hi as u128).wrapping_sub(lo as u128)
+}
+fn uadd(x: i128, d: u128) -> i128 {
+    (x as u128).wrapping_add(d) as i128
+}
+
+// ---------------------------------------------------------------------------
+// Reference sets
+
+/// The documented membership predicate of a strided interval.
+fn str_member(start: i128, end: i128, stride: u128, x: i128) -> bool {
+    if x < start || x > end {
+        return false;
+    }
+    let d = udist(start, x);
+    if stride == 0 {
+        d == 0
+    } else {
+        d % stride == 0
+    }
+}
+
+/// A set of w-byte values.
+#[derive(Clone, Debug, PartialEq, Eq)]
+enum RS {
+    /// 1-byte sets by members: bit `x as u8` is set iff x is a member.
+    Bits([u64; 4]),
+    /// `start, start+stride, …, ≤ end` (signed); empty if `start > end`.
+    Str { w: u32, start: i128, end: i128, stride: u128 },
+}
+
+impl RS {
+    fn from_triple(w: u32, start: i128, end: i128, stride: u128) -> RS {
+        if w == 1 {
+            let mut bits = [0u64; 4];
+            for x in -128i128..=127 {
+                if str_member(start, end, stride, x) {
+                    let i = (x as i8) as u8 as usize;
+                    bits[i / 64] |= 1u64 << (i % 64);
+                }
+            }
+            RS::Bits(bits)
+        } else {
+            RS::Str { w, start, end, stride }
+        }
+    }
+    fn all(w: u32) -> RS {
+        if w == 1 {
+            RS::Bits([u64::MAX; 4])
+        } else {
+            RS::Str { w, start: smin(w), end: smax(w), stride: 1 }
+        }
+    }
+    fn member(&self, x: i128) -> bool {
+        match self {
+            RS::Bits(b) => {
+                if !(-128..=127).contains(&x) {
+                    return false;
+                }
+                let i = (x as i8) as u8 as usize;
+                b[i / 64] >> (i % 64) & 1 == 1
+            }
+            RS::Str { start, end, stride, .. } => str_member(*start, *end, *stride, x),
+        }
+    }
+    fn is_all(&self) -> bool {
+        match self {
+            RS::Bits(b) => b.iter().all(|x| *x == u64::MAX),
+            RS::Str { w, start, end, stride } => *start == smin(*w) && *end == smax(*w) && *stride == 1,
+        }
+    }
+    /// For `Str`: a complete set of test members — `A ⊆ B` iff all of them are in `B`
+    /// (first member, second member, last member: if the first two are in B then B's stride
+    /// divides A's stride and A's residue class is B's; with the last one ≤ B.end all are in B).
+    fn candidates(&self) -> Vec<i128> {
+        match self {
+            RS::Bits(b) => {
+                let mut v = Vec::new();
+                for i in 0..256usize {
+                    if b[i / 64] >> (i % 64) & 1 == 1 {
+                        v.push((i as u8 as i8) as i128);
+                        if v.len() >= 4 {
+                            break;
+                        }
+                    }
+                }
+                // also the largest member
+                for i in (0..256usize).rev() {
+                    if b[i / 64] >> (i % 64) & 1 == 1 {
+                        v.push((i as u8 as i8) as i128);
+                        break;
+                    }
+                }
+                v
+            }
+            RS::Str { start, end, stride, .. } => {
+                if start > end {
+                    return Vec::new();
+                }
+                let mut v = vec![*start];
+                if *stride > 0 {
+                    let len = udist(*start, *end);
+                    let q = len / *stride;
+                    if q >= 1 {
+                        v.push(uadd(*start, *stride));
+                        v.push(uadd(*start, q * *stride));
+                        if q >= 4 {
+                            v.push(uadd(*start, (q / 2) * *stride));
+                        }
+                    }
+                }
+                v
+            }
+        }
+    }
+    /// A member of `self` that is not a member of `other` (None iff `self ⊆ other`).
+    fn missing_in(&self, other: &RS) -> Option<i128> {
+        match (self, other) {
+            (RS::Bits(a), RS::Bits(b)) => {
+                for k in 0..4 {
+                    let d = a[k] & !b[k];
+                    if d != 0 {
+                        let i = k * 64 + d.trailing_zeros() as usize;
+                        return Some((i as u8 as i8) as i128);
+                    }
+                }
+                None
+            }
+            _ => self.candidates().into_iter().find(|x| !other.member(*x)),
+        }
+    }
+}
+
+/// Reference concretisation of any abstract value in scope.
+#[derive(Clone, Debug, PartialEq)]
+enum G {
+    /// Every concrete value of the kind (unconstrained).
+    Every,
+    Sc(RS),
+    /// `true` = may be tainted ({untainted, tainted}), `false` = {untainted}.
+    Taint(bool),
+    Data { top: bool, abs: Option<Box<G>>, rel: BTreeMap<u32, G> },
+    /// Pointwise product: `default` = meaning of a missing key (None = no value at all);
+    /// cells carry a size (0 for DomainMap entries).
+    Map { default: Option<Box<G>>, cells: BTreeMap<i64, (u32, G)> },
+}
+
+/// A concrete element.
+#[derive(Clone, Debug, PartialEq)]
+enum W {
+    Sc(i128),
+    Taint(bool),
+    Abs(Box<W>),
+    Rel(u32, Box<W>),
+    /// A value of completely unknown origin (only represented by "everything").
+    Unknown,
+    Cell(i64, u32, Box<W>),
+}
+
+impl G {
+    fn is_everything(&self) -> bool {
+        match self {
+            G::Every => true,
+            G::Sc(rs) => rs.is_all(),
+            G::Taint(t) => *t,
+            G::Data { top, .. } => *top,
+            G::Map { default, cells } => {
+                matches!(default, Some(d) if d.is_everything()) && cells.values().all(|(_, g)| g.is_everything())
+            }
+        }
+    }
+    fn member(&self, w: &W) -> bool {
+        match (self, w) {
+            (G::Every, _) => true,
+            (G::Sc(rs), W::Sc(x)) => rs.member(*x),
+            (G::Taint(may), W::Taint(t)) => !*t || *may,
+            (G::Data { top, abs, .. }, W::Abs(x)) => *top || abs.as_ref().map_or(false, |g| g.member(x)),
+            (G::Data { top, rel, .. }, W::Rel(i, x)) => *top || rel.get(i).map_or(false, |g| g.member(x)),
+            (G::Data { top, .. }, W::Unknown) => *top,
+            (G::Map { default, cells }, W::Cell(k, sz, x)) => match cells.get(k) {
+                Some((s, g)) => {
+                    if s == sz {
+                        g.member(x)
+                    } else {
+                        g.is_everything()
+                    }
+                }
+                None => match default {
+                    None => false,
+                    Some(d) => d.member(x),
+                },
+            },
+            (g, W::Unknown) => g.is_everything(),
+            _ => false,
+        }
+    }
+    /// Some members (used as concrete witnesses in chains).
+    fn some_members(&self) -> Vec<W> {
+        match self {
+            G::Every => vec![W::Unknown],
+            G::Sc(rs) => rs.candidates().into_iter().map(W::Sc).collect(),
+            G::Taint(may) => {
+                if *may {
+                    vec![W::Taint(false), W::Taint(true)]
+                } else {
+                    vec![W::Taint(false)]
+                }
+            }
+            G::Data { top, abs, rel } => {
+                let mut v = Vec::new();
+                if *top {
+                    v.push(W::Unknown);
+                }
+                if let Some(a) = abs {
+                    v.extend(a.some_members().into_iter().map(|w| W::Abs(Box::new(w))));
+                }
+                for (i, g) in rel {
+                    v.extend(g.some_members().into_iter().map(|w| W::Rel(*i, Box::new(w))));
+                }
+                v
+            }
+            G::Map { cells, .. } => {
+                let mut v = Vec::new();
+                for (k, (sz, g)) in cells {
+                    v.extend(g.some_members().into_iter().take(3).map(|w| W::Cell(*k, *sz, Box::new(w))));
+                }
+                v
+            }
+        }
+    }
+    fn any_member(&self) -> Option<W> {
+        self.some_members().into_iter().next()
+    }
+    /// An element of `self` that is not in `other`; `None` iff `γ(self) ⊆ γ(other)`.
+    fn missing_in(&self, other: &G) -> Option<W> {
+        match (self, other) {
+            (_, G::Every) => None,
+            (G::Every, o) => {
+                if o.is_everything() {
+                    None
+                } else {
+                    Some(W::Unknown)
+                }
+            }
+            (G::Sc(a), G::Sc(b)) => a.missing_in(b).map(W::Sc),
+            (G::Taint(a), G::Taint(b)) => {
+                if *a && !*b {
+                    Some(W::Taint(true))
+                } else {
+                    None
+                }
+            }
+            (G::Data { top: ta, abs: aa, rel: ra }, G::Data { top: tb, abs: ab, rel: rb }) => {
+                if *tb {
+                    return None;
+                }
+                if *ta {
+                    return Some(W::Unknown);
+                }
+                if let Some(x) = aa {
+                    let miss = match ab {
+                        Some(y) => x.missing_in(y),
+                        None => x.any_member(),
+                    };
+                    if let Some(w) = miss {
+                        return Some(W::Abs(Box::new(w)));
+                    }
+                }
+                for (i, x) in ra {
+                    let miss = match rb.get(i) {
+                        Some(y) => x.missing_in(y),
+                        None => x.any_member(),
+                    };
+                    if let Some(w) = miss {
+                        return Some(W::Rel(*i, Box::new(w)));
+                    }
+                }
+                None
+            }
+            (G::Map { default: da, cells: ca }, G::Map { default: db, cells: cb }) => {
+                let keys: BTreeSet<i64> = ca.keys().chain(cb.keys()).cloned().collect();
+                for k in keys {
+                    match (ca.get(&k), cb.get(&k)) {
+                        (Some((sa, ga)), Some((sb, gb))) => {
+                            if sa != sb {
+                                // `self` does not constrain the cell (k, sb) as such
+                                if !gb.is_everything() {
+                                    return Some(W::Cell(k, *sb, Box::new(W::Unknown)));
+                                }
+                            } else if let Some(w) = ga.missing_in(gb) {
+                                return Some(W::Cell(k, *sa, Box::new(w)));
+                            }
+                        }
+                        (Some((sa, ga)), None) => {
+                            let miss = match db {
+                                None => ga.any_member(),
+                                Some(d) => ga.missing_in(d),
+                            };
+                            if let Some(w) = miss {
+                                return Some(W::Cell(k, *sa, Box::new(w)));
+                            }
+                        }
+                        (None, Some((sb, gb))) => {
+                            if let Some(d) = da {
+                                if let Some(w) = d.missing_in(gb) {
+                                    return Some(W::Cell(k, *sb, Box::new(w)));
+                                }
+                            }
+                        }
+                        (None, None) => (),
+                    }
+                }
+                None
+            }
+            // kinds never mix; if they do the oracle cannot decide — treat as "not included"
+            _ => Some(W::Unknown),
+        }
+    }
+}
+
+// ---------------------------------------------------------------------------
+// Input specifications (JSON-friendly, everything `replay` needs)
+
+#[derive(Clone, Debug, PartialEq)]
+enum Spec {
+    /// Well-formed strided interval plus *proposed* hints (installed through the public API,
+    /// which may round or reject them) and the delay counter.
+    Iv { w: u32, start: i128, end: i128, stride: u64, lo: Option<i128>, hi: Option<i128>, delay: u64 },
+    Bv { w: u32, val: Option<i128> },
+    Taint { w: u32, tainted: bool },
+    Data { w: u32, rel: Vec<(u32, Spec)>, abs: Option<Box<Spec>>, top: bool },
+    /// DomainMap entries (key) or MemRegion cells (offset), in insertion order.
+    Map(Vec<(i64, Spec)>),
+}
+
+fn istr(x: i128) -> Value {
+    json!(x.to_string())
+}
+fn iparse(v: &Value) -> Option<i128> {
+    v.as_str()?.parse::<i128>().ok()
+}
+fn oparse(v: &Value) -> Option<Option<i128>> {
+    if v.is_null() {
+        Some(None)
+    } else {
+        Some(Some(iparse(v)?))
+    }
+}
+
+impl Spec {
+    fn to_json(&self) -> Value {
+        match self {
+            Spec::Iv { w, start, end, stride, lo, hi, delay } => {
+                json!({"iv":[w, istr(*start), istr(*end), stride, lo.map(istr), hi.map(istr), delay]})
+            }
+            Spec::Bv { w, val } => json!({"bv":[w, val.map(istr)]}),
+            Spec::Taint { w, tainted } => json!({"taint":[w, tainted]}),
+            Spec::Data { w, rel, abs, top } => json!({"data":{
+                "w": w,
+                "rel": rel.iter().map(|(i, s)| json!([i, s.to_json()])).collect::<Vec<_>>(),
+                "abs": abs.as_ref().map(|s| s.to_json()),
+                "top": top}}),
+            Spec::Map(cells) => json!({"map": cells.iter().map(|(k, s)| json!([k, s.to_json()])).collect::<Vec<_>>()}),
+        }
+    }
+    fn from_json(v: &Value) -> Option<Spec> {
+        if let Some(a) = v.get("iv") {
+            return Some(Spec::Iv {
+                w: a.get(0)?.as_u64()? as u32,
+                start: iparse(a.get(1)?)?,
+                end: iparse(a.get(2)?)?,
+                stride: a.get(3)?.as_u64()?,
+                lo: oparse(a.get(4)?)?,
+                hi: oparse(a.get(5)?)?,
+                delay: a.get(6)?.as_u64()?,
+            });
+        }
+        if let Some(a) = v.get("bv") {
+            return Some(Spec::Bv { w: a.get(0)?.as_u64()? as u32, val: oparse(a.get(1)?)? });
+        }
+        if let Some(a) = v.get("taint") {
+            return Some(Spec::Taint { w: a.get(0)?.as_u64()? as u32, tainted: a.get(1)?.as_bool()? });
+        }
+        if let Some(d) = v.get("data") {
+            let mut rel = Vec::new();
+            for e in d.get("rel")?.as_array()? {
+                rel.push((e.get(0)?.as_u64()? as u32, Spec::from_json(e.get(1)?)?));
+            }
+            let abs = match d.get("abs")? {
+                Value::Null => None,
+                x => Some(Box::new(Spec::from_json(x)?)),
+            };
+            return Some(Spec::Data { w: d.get("w")?.as_u64()? as u32, rel, abs, top: d.get("top")?.as_bool()? });
+        }
+        if let Some(m) = v.get("map") {
+            let mut cells = Vec::new();
+            for e in m.as_array()? {
+                cells.push((e.get(0)?.as_i64()?, Spec::from_json(e.get(1)?)?));
+            }
+            return Some(Spec::Map(cells));
+        }
+        None
+    }
+    /// Cheap structural fingerprint.
+    fn fp(&self) -> u64 {
+        fn h128(x: i128) -> u64 {
+            (x as u64) ^ ((x >> 64) as u64).rotate_left(29)
+        }
+        match self {
+            Spec::Iv { w, start, end, stride, lo, hi, delay } => {
+                let mut h = mix(1, *w as u64);
+                h = mix(h, h128(*start));
+                h = mix(h, h128(*end));
+                h = mix(h, *stride);
+                h = mix(h, lo.map_or(0x55, h128));
+                h = mix(h, hi.map_or(0xaa, h128));
+                mix(h, *delay)
+            }
+            Spec::Bv { w, val } => mix(mix(2, *w as u64), val.map_or(0x77, h128)),
+            Spec::Taint { w, tainted } => mix(mix(3, *w as u64), *tainted as u64),
+            Spec::Data { w, rel, abs, top } => {
+                let mut h = mix(mix(4, *w as u64), *top as u64);
+                for (i, s) in rel {
+                    h = mix(mix(h, *i as u64), s.fp());
+                }
+                mix(h, abs.as_ref().map_or(0x99, |s| s.fp()))
+            }
+            Spec::Map(cells) => {
+                let mut h = 5;
+                for (k, s) in cells {
+                    h = mix(mix(h, *k as u64), s.fp());
+                }
+                h
+            }
+        }
+    }
+    /// Smallness measure for keeping the smallest witness per signature.
+    fn size(&self) -> u64 {
+        fn bits(x: i128) -> u64 {
+            (128 - x.unsigned_abs().leading_zeros()) as u64
+        }
+        match self {
+            Spec::Iv { w, start, end, stride, lo, hi, delay } => {
+                *w as u64 + bits(*start) + bits(*end) + (64 - stride.leading_zeros()) as u64
+                    + lo.map_or(0, |x| 8 + bits(x)) + hi.map_or(0, |x| 8 + bits(x)) + (64 - delay.leading_zeros()) as u64
+            }
+            Spec::Bv { w, val } => *w as u64 + val.map_or(1, bits),
+            Spec::Taint { w, .. } => *w as u64,
+            Spec::Data { rel, abs, top, .. } => {
+                20 + *top as u64 + rel.iter().map(|(_, s)| 20 + s.size()).sum::<u64>() + abs.as_ref().map_or(0, |s| 10 + s.size())
+            }
+            Spec::Map(cells) => 20 + cells.iter().map(|(_, s)| 30 + s.size()).sum::<u64>(),
+        }
+    }
+    /// Concrete elements that the *specification* says are represented (independent of the
+    /// observation of the built value; used to cross-check the observer).
+    fn witnesses(&self) -> Vec<W> {
+        match self {
+            Spec::Iv { start, end, stride, .. } => {
+                let mut v = vec![W::Sc(*start), W::Sc(*end)];
+                if *stride > 0 {
+                    v.push(W::Sc(uadd(*start, *stride as u128)));
+                    let q = udist(*start, *end) / *stride as u128;
+                    v.push(W::Sc(uadd(*start, (q / 2) * *stride as u128)));
+                }
+                v
+            }
+            Spec::Bv { w, val } => match val {
+                Some(x) => vec![W::Sc(*x)],
+                None => vec![W::Sc(0), W::Sc(-1), W::Sc(smin(*w)), W::Sc(smax(*w) / 3)],
+            },
+            Spec::Taint { tainted, .. } => {
+                if *tainted {
+                    vec![W::Taint(false), W::Taint(true)]
+                } else {
+                    vec![W::Taint(false)]
+                }
+            }
+            Spec::Data { rel, abs, top, .. } => {
+                let mut v = Vec::new();
+                if *top {
+                    v.push(W::Unknown);
+                }
+                if let Some(a) = abs {
+                    v.extend(a.witnesses().into_iter().map(|w| W::Abs(Box::new(w))));
+                }
+                for (i, s) in rel {
+                    v.extend(s.witnesses().into_iter().map(|w| W::Rel(*i, Box::new(w))));
+                }
+                v
+            }
+            Spec::Map(cells) => {
+                let mut v = Vec::new();
+                for (k, s) in cells {
+                    let sz = s.width();
+                    v.extend(s.witnesses().into_iter().take(3).map(|w| W::Cell(*k, sz, Box::new(w))));
+                }
+                v
+            }
+        }
+    }
+    fn width(&self) -> u32 {
+        match self {
+            Spec::Iv { w, .. } | Spec::Bv { w, .. } | Spec::Taint { w, .. } | Spec::Data { w, .. } => *w,
+            Spec::Map(_) => 0,
+        }
+    }
+}
+
+// ---------------------------------------------------------------------------
+// The domains under test
+
+/// A domain the monitor can build from a `Spec`, observe as a reference set and generate.
+trait Dom: AbstractDomain + std::fmt::Debug + Sized {
+    fn kind() -> String;
+    fn build(s: &Spec) -> Option<Self>;
+    /// Observation → reference concretisation. Reads the value only through serde or trivial
+    /// accessors, never through merge.
+    fn gamma(&self) -> G;
+    /// γ of `Self::top()` as documented (used for MergeTopStrategy's missing keys).
+    fn top_gamma() -> G {
+        G::Every
+    }
+    fn gen(rng: &mut Rng, w: u32) -> Spec;
+    /// A value related to `s` (so that merges are not always Top / disjoint).
+    fn near(rng: &mut Rng, s: &Spec) -> Spec;
+    /// `self (+|-) other` for chain steps of the form `acc ⊔ (acc ± c)`; None if unsupported.
+    fn arith(&self, _sub: bool, _other: &Self) -> Option<Self> {
+        None
+    }
+    /// Widths (bytes) at which pairs of this kind are generated.
+    fn widths() -> &'static [u32];
+}
+
+// ---- BitvectorDomain
+
+impl Dom for BitvectorDomain {
+    fn kind() -> String {
+        "bv".into()
+    }
+    fn build(s: &Spec) -> Option<Self> {
+        match s {
+            Spec::Bv { w, val: Some(x) } if (1..=16).contains(w) => Some(BitvectorDomain::Value(bvs(*x, *w))),
+            Spec::Bv { w, val: None } if (1..=16).contains(w) => Some(BitvectorDomain::Top(bs(*w))),
+            _ => None,
+        }
+    }
+    fn gamma(&self) -> G {
+        match self {
+            BitvectorDomain::Top(sz) => G::Sc(RS::all(u64::from(*sz) as u32)),
+            BitvectorDomain::Value(bv) => {
+                let v = from_bv(bv);
+                G::Sc(RS::from_triple(v.w, v.s(), v.s(), 0))
+            }
+        }
+    }
+    fn gen(rng: &mut Rng, w: u32) -> Spec {
+        if rng.chance(1, 6) {
+            Spec::Bv { w, val: None }
+        } else {
+            Spec::Bv { w, val: Some(V::new(rng.biased(w), w).s()) }
+        }
+    }
+    fn near(rng: &mut Rng, s: &Spec) -> Spec {
+        let w = s.width();
+        match rng.below(3) {
+            0 => s.clone(),
+            1 => match s {
+                Spec::Bv { val: Some(x), .. } => Spec::Bv { w, val: Some(clampw(x.saturating_add(rng.range_i64(-2, 2) as i128), w)) },
+                _ => Self::gen(rng, w),
+            },
+            _ => Self::gen(rng, w),
+        }
+    }
+    fn arith(&self, sub: bool, other: &Self) -> Option<Self> {
+        Some(self.bin_op(if sub { BinOpType::IntSub } else { BinOpType::IntAdd }, other))
+    }
+    fn widths() -> &'static [u32] {
+        &[2, 4, 8, 16]
+    }
+}
+
+// ---- IntervalDomain
+
+/// Mirror of the serde shape of `IntervalDomain` (private fields are observed through serde).
+#[derive(Deserialize)]
+struct IvMirror {
+    interval: Interval,
+    #[allow(dead_code)]
+    widening_upper_bound: Option<Bitvector>,
+    #[allow(dead_code)]
+    widening_lower_bound: Option<Bitvector>,
+    #[allow(dead_code)]
+    widening_delay: u64,
+}
+
+fn observe_iv(d: &IntervalDomain) -> Option<IvMirror> {
+    serde_json::from_value(serde_json::to_value(d).ok()?).ok()
+}
+
+/// Normalise a proposed triple to a well-formed one.
+fn norm_iv(w: u32, s: i128, e: i128, stride: u64) -> (i128, i128, u64) {
+    let (mut s, mut e) = (clampw(s, w), clampw(e, w));
+    if s > e {
+        std::mem::swap(&mut s, &mut e);
+    }
+    let len = udist(s, e);
+    if len == 0 {
+        return (s, s, 0);
+    }
+    let stride = (stride.max(1) as u128).min(len).min(u64::MAX as u128);
+    let e = uadd(s, (len / stride) * stride);
+    if e == s {
+        (s, s, 0)
+    } else {
+        (s, e, stride as u64)
+    }
+}
+
+fn iv_well_formed(w: u32, s: i128, e: i128, stride: u64) -> bool {
+    (1..=16).contains(&w)
+        && s >= smin(w)
+        && e <= smax(w)
+        && s <= e
+        && ((stride == 0) == (s == e))
+        && (stride == 0 || udist(s, e) % stride as u128 == 0)
+}
+
+fn gen_delay(rng: &mut Rng, len: u128) -> u64 {
+    let l = len.min(u64::MAX as u128) as u64;
+    match rng.below(10) {
+        0..=3 => 0,
+        4 => rng.below(10),
+        5 => l,
+        6 => l.saturating_sub(1),
+        7 => l.saturating_add(rng.below(3)),
+        8 => *rng.pick(&[u64::MAX, u64::MAX - 1, 1 << 63, 255, 256]),
+        _ => rng.next_u64() >> rng.below(64),
+    }
+}
+
+fn gen_hint(rng: &mut Rng, w: u32, anchor: i128, below: bool) -> Option<i128> {
+    match rng.below(8) {
+        0..=2 => None,
+        3 | 4 => {
+            let d = 1 + rng.below(16) as i128;
+            Some(clampw(if below { anchor.saturating_sub(d) } else { anchor.saturating_add(d) }, w))
+        }
+        5 => {
+            let d = 1 + (rng.next_u64() >> rng.below(64)) as i128;
+            Some(clampw(if below { anchor.saturating_sub(d) } else { anchor.saturating_add(d) }, w))
+        }
+        6 => Some(if below { smin(w) } else { smax(w) }),
+        _ => Some(V::new(rng.biased(w), w).s()), // possibly on the wrong side: the API must reject it
+    }
+}
+
+fn dress_iv(rng: &mut Rng, w: u32, s: i128, e: i128, stride: u64) -> Spec {
+    Spec::Iv { w, start: s, end: e, stride, lo: gen_hint(rng, w, s, true), hi: gen_hint(rng, w, e, false), delay: gen_delay(rng, udist(s, e)) }
+}
+
+fn gen_stride(rng: &mut Rng, len: u128) -> u64 {
+    match rng.below(8) {
+        0..=2 => 1,
+        3 => 2 + rng.below(8),
+        4 => 1u64 << rng.below(12),
+        5 => (len / (1 + rng.below(4) as u128)).min(u64::MAX as u128) as u64,
+        6 => len.min(u64::MAX as u128) as u64,
+        _ => 1 + rng.below(300),
+    }
+}
+
+impl Dom for IntervalDomain {
+    fn kind() -> String {
+        "iv".into()
+    }
+    fn build(s: &Spec) -> Option<Self> {
+        match s {
+            Spec::Iv { w, start, end, stride, lo, hi, delay } if iv_well_formed(*w, *start, *end, *stride) => {
+                let mut d = IntervalDomain::from(Interval { start: bvs(*start, *w), end: bvs(*end, *w), stride: *stride });
+                if let Some(x) = lo {
+                    if *x < smin(*w) || *x > smax(*w) {
+                        return None;
+                    }
+                    d.update_widening_lower_bound(&Some(bvs(*x, *w)));
+                }
+                if let Some(x) = hi {
+                    if *x < smin(*w) || *x > smax(*w) {
+                        return None;
+                    }
+                    d.update_widening_upper_bound(&Some(bvs(*x, *w)));
+                }
+                if *delay != 0 {
+                    let mut j = serde_json::to_value(&d).ok()?;
+                    j["widening_delay"] = json!(*delay);
+                    d = serde_json::from_value(j).ok()?;
+                }
+                Some(d)
+            }
+            _ => None,
+        }
+    }
+    fn gamma(&self) -> G {
+        match observe_iv(self) {
+            Some(m) => {
+                let w = u64::from(m.interval.start.bytesize()) as u32;
+                G::Sc(RS::from_triple(w, sval(&m.interval.start), sval(&m.interval.end), m.interval.stride as u128))
+            }
+            // cannot happen for a serialisable value; an empty set makes every inclusion fail loudly
+            None => G::Sc(RS::Str { w: 2, start: 1, end: 0, stride: 1 }),
+        }
+    }
+    fn gen(rng: &mut Rng, w: u32) -> Spec {
+        if rng.chance(1, 24) {
+            return dress_iv(rng, w, smin(w), smax(w), 1);
+        }
+        let s = V::new(rng.biased(w), w).s();
+        let e = match rng.below(5) {
+            0 | 1 => s.saturating_add(rng.below(24) as i128),
+            2 => V::new(rng.biased(w), w).s(),
+            3 => s,
+            _ => s.saturating_add((rng.next_u64() >> rng.below(64)) as i128),
+        };
+        let (s0, e0) = (clampw(s.min(e), w), clampw(s.max(e), w));
+        let stride = gen_stride(rng, udist(s0, e0));
+        let (s, e, stride) = norm_iv(w, s0, e0, stride);
+        dress_iv(rng, w, s, e, stride)
+    }
+    fn near(rng: &mut Rng, sp: &Spec) -> Spec {
+        let Spec::Iv { w, start, end, stride, lo, hi, delay } = sp.clone() else {
+            return sp.clone();
+        };
+        let st = stride.max(1) as i128;
+        let k = 1 + rng.below(4) as i128;
+        let small = rng.range_i64(-5, 5) as i128;
+        let (s, e, sd) = match rng.below(9) {
+            0 => (start, end, stride),
+            1 => (start, end.saturating_add(k.saturating_mul(st)), stride),
+            2 => (start.saturating_sub(k.saturating_mul(st)), end, stride),
+            3 => (start.saturating_add(small), end.saturating_add(small), stride),
+            4 => {
+                // sub-interval on the same stride
+                let q = udist(start, end) / st as u128;
+                let i = rng.next_u128() % q.saturating_add(1).max(1);
+                let j = rng.next_u128() % q.saturating_add(1).max(1);
+                (uadd(start, i.min(j) * st as u128), uadd(start, i.max(j) * st as u128), stride.saturating_mul(1 + rng.below(3)))
+            }
+            5 => (start.saturating_sub(k.saturating_mul(st)), end.saturating_add(k.saturating_mul(st)), stride),
+            6 => {
+                let x = if rng.bool() { end.saturating_add(st) } else { start.saturating_sub(1 + rng.below(3) as i128) };
+                (x, x, 0)
+            }
+            7 => (start.saturating_add(k.saturating_mul(st)), end.saturating_add(k.saturating_mul(st)), stride),
+            _ => (start.saturating_add(small), end.saturating_add(rng.range_i64(-5, 5) as i128), gen_stride(rng, udist(start, end))),
+        };
+        let (s, e, sd) = norm_iv(w, s, e, sd);
+        if rng.bool() {
+            // keep the bookkeeping of the original (typical for two versions of one variable)
+            Spec::Iv { w, start: s, end: e, stride: sd, lo, hi, delay }
+        } else {
+            dress_iv(rng, w, s, e, sd)
+        }
+    }
+    fn arith(&self, sub: bool, other: &Self) -> Option<Self> {
+        Some(self.bin_op(if sub { BinOpType::IntSub } else { BinOpType::IntAdd }, other))
+    }
+    fn widths() -> &'static [u32] {
+        &[1, 1, 2, 4, 8, 8, 16]
+    }
+}
+
+// ---- Taint
+
+impl Dom for Taint {
+    fn kind() -> String {
+        "taint".into()
+    }
+    fn build(s: &Spec) -> Option<Self> {
+        match s {
+            Spec::Taint { w, tainted } if (1..=16).contains(w) => Some(if *tainted { Taint::Tainted(bs(*w)) } else { Taint::Top(bs(*w)) }),
+            _ => None,
+        }
+    }
+    fn gamma(&self) -> G {
+        match self {
+            Taint::Tainted(_) => G::Taint(true),
+            Taint::Top(_) => G::Taint(false),
+        }
+    }
+    fn top_gamma() -> G {
+        G::Taint(false)
+    }
+    fn gen(rng: &mut Rng, w: u32) -> Spec {
+        Spec::Taint { w, tainted: rng.bool() }
+    }
+    fn near(rng: &mut Rng, s: &Spec) -> Spec {
+        Spec::Taint { w: s.width(), tainted: rng.bool() }
+    }
+    fn arith(&self, sub: bool, other: &Self) -> Option<Self> {
+        Some(self.bin_op(if sub { BinOpType::IntSub } else { BinOpType::IntAdd }, other))
+    }
+    fn widths() -> &'static [u32] {
+        &[1, 2, 4, 8]
+    }
+}
+
+// ---- DataDomain<T>
+
+fn ids() -> &'static Vec<AbstractIdentifier> {
+    static IDS: std::sync::OnceLock<Vec<AbstractIdentifier>> = std::sync::OnceLock::new();
+    IDS.get_or_init(|| {
+        let var = |n: &str| Variable { name: n.to_string(), size: ByteSize::new(8), is_temp: false };
+        vec![
+            AbstractIdentifier::new(Tid::new("sub_main"), AbstractLocation::Register(var("RSP"))),
+            AbstractIdentifier::new(Tid::new("call_malloc_1"), AbstractLocation::Register(var("RAX"))),
+            AbstractIdentifier::new(Tid::new("sub_main"), AbstractLocation::from_stack_position(&var("RSP"), 16, ByteSize::new(8))),
+        ]
+    })
+}
+
+fn id_index(id: &AbstractIdentifier) -> u32 {
+    match ids().iter().position(|x| x == id) {
+        Some(i) => i as u32,
+        None => 1000 + (crate::prng::hash_str(&format!("{id}")) % 1000) as u32,
+    }
+}
+
+impl<T: Dom + RegisterDomain> Dom for DataDomain<T> {
+    fn kind() -> String {
+        format!("data_{}", T::kind())
+    }
+    fn build(s: &Spec) -> Option<Self> {
+        match s {
+            Spec::Data { w, rel, abs, top } if (1..=16).contains(w) => {
+                let mut d = DataDomain::<T>::new_empty(bs(*w));
+                let mut map = BTreeMap::new();
+                for (i, os) in rel {
+                    if os.width() != *w {
+                        return None;
+                    }
+                    map.insert(ids().get(*i as usize)?.clone(), T::build(os)?);
+                }
+                d.set_relative_values(map);
+                if let Some(a) = abs {
+                    if a.width() != *w {
+                        return None;
+                    }
+                    d.set_absolute_value(Some(T::build(a)?));
+                }
+                if *top {
+                    d.set_contains_top_flag();
+                }
+                Some(d)
+            }
+            _ => None,
+        }
+    }
+    fn gamma(&self) -> G {
+        G::Data {
+            top: self.contains_top(),
+            abs: self.get_absolute_value().map(|v| Box::new(v.gamma())),
+            rel: self.get_relative_values().iter().map(|(id, v)| (id_index(id), v.gamma())).collect(),
+        }
+    }
+    fn gen(rng: &mut Rng, w: u32) -> Spec {
+        let mut rel = Vec::new();
+        for i in 0..3u32 {
+            if rng.chance(2, 5) {
+                rel.push((i, T::gen(rng, w)));
+            }
+        }
+        let abs = if rng.chance(2, 5) { Some(Box::new(T::gen(rng, w))) } else { None };
+        Spec::Data { w, rel, abs, top: rng.chance(1, 5) }
+    }
+    fn near(rng: &mut Rng, s: &Spec) -> Spec {
+        let Spec::Data { w, rel, abs, top } = s.clone() else {
+            return s.clone();
+        };
+        let mut nrel = Vec::new();
+        for i in 0..3u32 {
+            match rel.iter().find(|(j, _)| *j == i) {
+                Some((_, os)) => match rng.below(6) {
+                    0 => (),
+                    1 | 2 => nrel.push((i, os.clone())),
+                    _ => nrel.push((i, T::near(rng, os))),
+                },
+                None => {
+                    if rng.chance(1, 4) {
+                        nrel.push((i, T::gen(rng, w)));
+                    }
+                }
+            }
+        }
+        let nabs = match &abs {
+            Some(a) => match rng.below(5) {
+                0 => None,
+                1 => Some(a.clone()),
+                _ => Some(Box::new(T::near(rng, a))),
+            },
+            None => {
+                if rng.chance(1, 4) {
+                    Some(Box::new(T::gen(rng, w)))
+                } else {
+                    None
+                }
+            }
+        };
+        let ntop = if rng.chance(1, 5) { !top } else { top };
+        Spec::Data { w, rel: nrel, abs: nabs, top: ntop }
+    }
+    fn arith(&self, sub: bool, other: &Self) -> Option<Self> {
+        Some(self.bin_op(if sub { BinOpType::IntSub } else { BinOpType::IntAdd }, other))
+    }
+    fn widths() -> &'static [u32] {
+        &[1, 4, 8, 8]
+    }
+}
+
+// ---- DomainMap<u64, V, S>
+
+/// What a missing key means under a merge strategy (from the strategy's documentation).
+trait Strat<V: AbstractDomain>: MapMergeStrategy<u64, V> + Clone + Eq + std::fmt::Debug {
+    fn name() -> &'static str;
+    fn missing(v_top: G) -> Option<G>;
+}
+impl<V: AbstractDomain> Strat<V> for UnionMergeStrategy {
+    fn name() -> &'static str {
+        "union"
+    }
+    /// "keys not present in the map have an implicit bottom value"
+    fn missing(_v_top: G) -> Option<G> {
+        None
+    }
+}
+impl<V: AbstractDomain> Strat<V> for IntersectMergeStrategy {
+    fn name() -> &'static str {
+        "intersect"
+    }
+    /// "keys not present in the map have an implicit Top value" (maximal element)
+    fn missing(_v_top: G) -> Option<G> {
+        Some(G::Every)
+    }
+}
+impl<V: AbstractDomain + HasTop> Strat<V> for MergeTopStrategy {
+    fn name() -> &'static str {
+        "mergetop"
+    }
+    /// "Top … interpreted as a default element assigned to all keys not present"
+    fn missing(v_top: G) -> Option<G> {
+        Some(v_top)
+    }
+}
+
+/// Width of the values stored under a key (fixed per key so that merged values have equal sizes).
+fn key_width(k: i64) -> u32 {
+    [1, 8, 4, 8][(k as usize) % 4]
+}
+
+impl<V: Dom + HasTop, S: Strat<V>> Dom for DomainMap<u64, V, S> {
+    fn kind() -> String {
+        format!("map_{}_{}", S::name(), V::kind())
+    }
+    fn build(s: &Spec) -> Option<Self> {
+        match s {
+            Spec::Map(cells) => {
+                let mut m = BTreeMap::new();
+                for (k, vs) in cells {
+                    if *k < 0 || vs.width() != key_width(*k) {
+                        return None;
+                    }
+                    m.insert(*k as u64, V::build(vs)?);
+                }
+                Some(DomainMap::from(m))
+            }
+            _ => None,
+        }
+    }
+    fn gamma(&self) -> G {
+        G::Map {
+            default: S::missing(V::top_gamma()).map(Box::new),
+            cells: self.iter().map(|(k, v)| (*k as i64, (key_width(*k as i64), v.gamma()))).collect(),
+        }
+    }
+    fn gen(rng: &mut Rng, _w: u32) -> Spec {
+        let mut cells = Vec::new();
+        for k in 0..4i64 {
+            if rng.bool() {
+                cells.push((k, V::gen(rng, key_width(k))));
+            }
+        }
+        Spec::Map(cells)
+    }
+    fn near(rng: &mut Rng, s: &Spec) -> Spec {
+        let Spec::Map(cells) = s else {
+            return s.clone();
+        };
+        let mut out = Vec::new();
+        for k in 0..4i64 {
+            match cells.iter().find(|(j, _)| *j == k) {
+                Some((_, vs)) => match rng.below(6) {
+                    0 => (),
+                    1 | 2 => out.push((k, vs.clone())),
+                    _ => out.push((k, V::near(rng, vs))),
+                },
+                None => {
+                    if rng.chance(1, 3) {
+                        out.push((k, V::gen(rng, key_width(k))));
+                    }
+                }
+            }
+        }
+        Spec::Map(out)
+    }
+    fn widths() -> &'static [u32] {
+        &[0]
+    }
+}
+
+// ---- MemRegion<V>
+
+const REGION_LO: i64 = -8;
+const REGION_HI: i64 = 32;
+
+/// Keep a non-overlapping subset (first come first served by offset).
+fn non_overlapping(mut cells: Vec<(i64, Spec)>) -> Vec<(i64, Spec)> {
+    cells.sort_by_key(|(o, _)| *o);
+    let mut out: Vec<(i64, Spec)> = Vec::new();
+    let mut end = i64::MIN;
+    for (o, s) in cells {
+        if o >= end && o >= REGION_LO && o + s.width() as i64 <= REGION_HI {
+            end = o + s.width() as i64;
+            out.push((o, s));
+        }
+    }
+    out
+}
+
+impl<V: Dom + SizedDomain + HasTop> Dom for MemRegion<V> {
+    fn kind() -> String {
+        format!("region_{}", V::kind())
+    }
+    fn build(s: &Spec) -> Option<Self> {
+        match s {
+            Spec::Map(cells) => {
+                let mut r = MemRegion::<V>::new(ByteSize::new(8));
+                let mut end = i64::MIN;
+                let mut sorted = cells.clone();
+                sorted.sort_by_key(|(o, _)| *o);
+                for (o, vs) in &sorted {
+                    let w = vs.width() as i64;
+                    if *o < end || !(1..=16).contains(&w) || *o < -4096 || *o > 4096 {
+                        return None; // overlapping or absurd cells are outside the input domain
+                    }
+                    end = *o + w;
+                    r.insert_at_byte_index(V::build(vs)?, *o);
+                }
+                Some(r)
+            }
+            _ => None,
+        }
+    }
+    fn gamma(&self) -> G {
+        G::Map {
+            default: Some(Box::new(G::Every)),
+            cells: self.iter().map(|(o, v)| (*o, (u64::from(v.bytesize()) as u32, v.gamma()))).collect(),
+        }
+    }
+    fn gen(rng: &mut Rng, _w: u32) -> Spec {
+        let mut cells = Vec::new();
+        let mut pos = REGION_LO;
+        loop {
+            pos += *rng.pick(&[0i64, 0, 0, 1, 2, 4, 8]);
+            let size = *rng.pick(&[1u32, 2, 4, 8, 8]);
+            if pos + size as i64 > REGION_HI {
+                break;
+            }
+            if rng.chance(3, 5) {
+                cells.push((pos, V::gen(rng, size)));
+            }
+            pos += size as i64;
+        }
+        Spec::Map(cells)
+    }
+    fn near(rng: &mut Rng, s: &Spec) -> Spec {
+        let Spec::Map(cells) = s else {
+            return s.clone();
+        };
+        let mut out = Vec::new();
+        for (o, vs) in cells {
+            match rng.below(12) {
+                0 => (),
+                1..=3 => out.push((*o, vs.clone())),
+                4..=8 => out.push((*o, V::near(rng, vs))),
+                9 => out.push((*o + *rng.pick(&[-4i64, -2, -1, 1, 2, 4]), vs.clone())),
+                10 => {
+                    let size = *rng.pick(&[1u32, 2, 4, 8]);
+                    out.push((*o, V::gen(rng, size)));
+                }
+                _ => {
+                    let size = *rng.pick(&[1u32, 2, 4, 8]);
+                    let off = *o + *rng.pick(&[-1i64, 1, 4]);
+                    out.push((off, V::gen(rng, size)));
+                }
+            }
+        }
+        for _ in 0..rng.below(3) {
+            let size = *rng.pick(&[1u32, 2, 4, 8]);
+            out.push((rng.range_i64(REGION_LO, REGION_HI - size as i64), V::gen(rng, size)));
+        }
+        Spec::Map(non_overlapping(out))
+    }
+    fn widths() -> &'static [u32] {
+        &[0]
+    }
+}
+
+// ---------------------------------------------------------------------------
+// The oracle
+
+struct Cx<'a> {
+    /// coarse label used in signatures (`kind` or `kind:wN`)
+    label: &'a str,
+    case: &'a dyn Fn() -> Value,
+    size: u64,
+}
+
+/// Demand `γ(sub) ⊆ γ(sup)`; report a concrete counter-element otherwise.
+fn need(rep: &mut Report, cx: &Cx, sub: &G, sup: &G, what: &str, text: &str, show: &dyn Fn() -> String) -> bool {
+    rep.eval();
+    match sub.missing_in(sup) {
+        None => true,
+        Some(w) => {
+            rep.violation(
+                format!("{}:{what}", cx.label),
+                None,
+                format!("expected {text}; observed: element {w:?} is represented by the left side but not by the right side; {}", show()),
+                (cx.case)(),
+                cx.size,
+            );
+            false
+        }
+    }
+}
+
+/// All C03 checks for one pair of (already built) values. Returns the merge and its γ.
+fn check_values<D: Dom>(a: &D, b: &D, ga: &G, gb: &G, cx: &Cx, rep: &mut Report) -> Option<(D, G)> {
+    macro_rules! call {
+        ($what:expr, $e:expr) => {
+            match guard(|| $e) {
+                Ok(v) => v,
+                Err(p) => {
+                    rep.eval();
+                    rep.violation(
+                        format!("{}:{}:panic:{}", cx.label, $what, panic_site(&p)),
+                        None,
+                        format!("{} panicked on same-size inputs inside the domain: {p}; a={a:?} b={b:?}", $what),
+                        (cx.case)(),
+                        cx.size,
+                    );
+                    return None;
+                }
+            }
+        };
+    }
+    let m = call!("merge", a.merge(b));
+    let gm = m.gamma();
+    let show = || format!("a={a:?} b={b:?} a.merge(b)={m:?}");
+    // (1) over-approximation
+    need(rep, cx, ga, &gm, "not-over-approx", "γ(a) ⊆ γ(a.merge(b))", &show);
+    need(rep, cx, gb, &gm, "not-over-approx", "γ(b) ⊆ γ(a.merge(b))", &show);
+    // (2) merging a value with itself represents the same set
+    let aa = call!("merge", a.merge(a));
+    let gaa = aa.gamma();
+    let show_aa = || format!("a={a:?} a.merge(a)={aa:?}");
+    need(rep, cx, ga, &gaa, "self-merge-changes-set", "γ(a) ⊆ γ(a.merge(a))", &show_aa);
+    need(rep, cx, &gaa, ga, "self-merge-changes-set", "γ(a.merge(a)) ⊆ γ(a)", &show_aa);
+    let mm = call!("merge", m.merge(&m));
+    let gmm = mm.gamma();
+    let show_mm = || format!("m=a.merge(b)={m:?} (a={a:?} b={b:?}) m.merge(m)={mm:?}");
+    need(rep, cx, &gm, &gmm, "self-merge-changes-set", "γ(m) ⊆ γ(m.merge(m))", &show_mm);
+    need(rep, cx, &gmm, &gm, "self-merge-changes-set", "γ(m.merge(m)) ⊆ γ(m)", &show_mm);
+    // (3) stability: merging m with something it already absorbed does not enlarge γ(m)
+    let m2 = call!("merge", m.merge(b));
+    let g2 = m2.gamma();
+    need(rep, cx, &g2, &gm, "unstable", "γ(m.merge(b)) ⊆ γ(m) for m = a.merge(b)", &|| format!("a={a:?} b={b:?} m={m:?} m.merge(b)={m2:?}"));
+    let m3 = call!("merge", m.merge(a));
+    let g3 = m3.gamma();
+    need(rep, cx, &g3, &gm, "unstable", "γ(m.merge(a)) ⊆ γ(m) for m = a.merge(b)", &|| format!("a={a:?} b={b:?} m={m:?} m.merge(a)={m3:?}"));
+    if m2 != m || m3 != m {
+        rep.obs("restabilise:structure-changes-but-set-does-not");
+    }
+    // (4) merge_with
+    let mw = call!("merge_with", {
+        let mut x = a.clone();
+        x.merge_with(b);
+        x
+    });
+    let gw = mw.gamma();
+    let show_w = || format!("a={a:?} b={b:?} a.merge(b)={m:?} a.merge_with(b)={mw:?}");
+    need(rep, cx, ga, &gw, "merge_with-not-over-approx", "γ(a) ⊆ γ(a.merge_with(b))", &show_w);
+    need(rep, cx, gb, &gw, "merge_with-not-over-approx", "γ(b) ⊆ γ(a.merge_with(b))", &show_w);
+    need(rep, cx, &gw, &gm, "merge_with-differs", "γ(a.merge_with(b)) ⊆ γ(a.merge(b))", &show_w);
+    need(rep, cx, &gm, &gw, "merge_with-differs", "γ(a.merge(b)) ⊆ γ(a.merge_with(b))", &show_w);
+    if mw != m {
+        rep.obs("merge_with:structurally-different-from-merge");
+    }
+    let mw2 = call!("merge_with", {
+        let mut x = m.clone();
+        x.merge_with(b);
+        x
+    });
+    let gw2 = mw2.gamma();
+    need(rep, cx, &gw2, &gm, "merge_with-unstable", "γ(m.merge_with(b)) ⊆ γ(m) for m = a.merge(b)", &|| format!("a={a:?} b={b:?} m={m:?} m.merge_with(b)={mw2:?}"));
+    let aw = call!("merge_with", {
+        let mut x = a.clone();
+        x.merge_with(a);
+        x
+    });
+    let gaw = aw.gamma();
+    let show_aw = || format!("a={a:?} a.merge_with(a)={aw:?}");
+    need(rep, cx, ga, &gaw, "merge_with-self-changes-set", "γ(a) ⊆ γ(a.merge_with(a))", &show_aw);
+    need(rep, cx, &gaw, ga, "merge_with-self-changes-set", "γ(a.merge_with(a)) ⊆ γ(a)", &show_aw);
+    Some((m, gm))
+}
+
+fn label_of<D: Dom>(s: &Spec) -> String {
+    match s.width() {
+        0 => D::kind(),
+        w => format!("{}:w{w}", D::kind()),
+    }
+}
+
+/// Build a value from its spec and cross-check the observer against the spec's own witnesses.
+fn build_checked<D: Dom>(s: &Spec, rep: &mut Report) -> Option<(D, G)> {
+    let v = match guard(|| D::build(s)) {
+        Ok(Some(v)) => v,
+        Ok(None) => {
+            rep.obs("skipped:spec-outside-input-domain");
+            return None;
+        }
+        Err(p) => {
+            // constructors / hint installers are not the subject of C03
+            rep.inconclusive(&format!("build-panic:{}", panic_site(&p)));
+            return None;
+        }
+    };
+    let g = v.gamma();
+    for w in s.witnesses() {
+        if !g.member(&w) {
+            rep.inconclusive("observer-mismatch:spec-witness-not-in-observed-set");
+            rep.note(format!("observer mismatch for {s:?}: {w:?} not in {g:?}"));
+            return None;
+        }
+    }
+    Some((v, g))
+}
+
+fn rs_bounds(rs: &RS) -> Option<(i128, i128)> {
+    match rs {
+        RS::Bits(_) => {
+            let lo = (-128i128..=127).find(|x| rs.member(*x))?;
+            let hi = (-128i128..=127).rev().find(|x| rs.member(*x))?;
+            Some((lo, hi))
+        }
+        RS::Str { start, end, .. } => {
+            if start > end {
+                None
+            } else {
+                Some((*start, *end))
+            }
+        }
+    }
+}
+
+/// Path class of an interval merge (histogram only, not part of the verdict).
+fn iv_class(ga: &G, gb: &G, gm: &G) -> &'static str {
+    let (G::Sc(a), G::Sc(b), G::Sc(m)) = (ga, gb, gm) else {
+        return "other";
+    };
+    if m.is_all() {
+        return if a.is_all() || b.is_all() { "top-input" } else { "to-top" };
+    }
+    let (Some((al, ah)), Some((bl, bh)), Some((ml, mh))) = (rs_bounds(a), rs_bounds(b), rs_bounds(m)) else {
+        return "empty";
+    };
+    match (ml < al.min(bl), mh > ah.max(bh)) {
+        (true, true) => "widened-both",
+        (true, false) => "widened-lower",
+        (false, true) => "widened-upper",
+        (false, false) => {
+            if gm == ga || gm == gb {
+                "contained"
+            } else {
+                "hull"
+            }
+        }
+    }
+}
+
+fn pair_json(kind: &str, a: &Spec, b: &Spec) -> Value {
+    json!({"kind": kind, "mode": "pair", "a": a.to_json(), "b": b.to_json()})
+}
+
+fn check_pair<D: Dom>(a_s: &Spec, b_s: &Spec, rep: &mut Report, track: bool) {
+    let kind = D::kind();
+    let label = label_of::<D>(a_s);
+    let Some((a, ga)) = build_checked::<D>(a_s, rep) else { return };
+    let Some((b, gb)) = build_checked::<D>(b_s, rep) else { return };
+    let case = || pair_json(&kind, a_s, b_s);
+    let cx = Cx { label: &label, case: &case, size: a_s.size() + b_s.size() };
+    let Some((m, gm)) = check_values(&a, &b, &ga, &gb, &cx, rep) else { return };
+    let nontrivial = ga != gb && !gm.is_everything();
+    if nontrivial {
+        rep.nontrivial(mix(mix(crate::prng::hash_str(&kind), a_s.fp()), b_s.fp()));
+    }
+    if track {
+        if kind == "iv" {
+            rep.obs(&format!("{label}:{}", iv_class(&ga, &gb, &gm)));
+        } else {
+            rep.obs(&format!("{label}:{}", if gm.is_everything() { "everything" } else if ga == gb { "equal-inputs" } else { "proper" }));
+        }
+        if nontrivial && rep.wants_sample() {
+            rep.sample(json!({"case": case(), "merge": format!("{m:?}"), "gamma_of_merge": format!("{gm:?}").chars().take(300).collect::<String>(), "verdict": "all inclusions hold"}));
+        }
+    }
+}
+
+#[derive(Clone, Debug)]
+enum Step {
+    Fresh(Spec),
+    /// next value = acc + build(spec)
+    Add(Spec),
+    /// next value = acc - build(spec)
+    Sub(Spec),
+}
+
+impl Step {
+    fn spec(&self) -> &Spec {
+        match self {
+            Step::Fresh(s) | Step::Add(s) | Step::Sub(s) => s,
+        }
+    }
+    fn to_json(&self) -> Value {
+        match self {
+            Step::Fresh(s) => json!(["fresh", s.to_json()]),
+            Step::Add(s) => json!(["add", s.to_json()]),
+            Step::Sub(s) => json!(["sub", s.to_json()]),
+        }
+    }
+    fn from_json(v: &Value) -> Option<Step> {
+        let s = Spec::from_json(v.get(1)?)?;
+        match v.get(0)?.as_str()? {
+            "fresh" => Some(Step::Fresh(s)),
+            "add" => Some(Step::Add(s)),
+            "sub" => Some(Step::Sub(s)),
+            _ => None,
+        }
+    }
+    fn fp(&self) -> u64 {
+        mix(
+            match self {
+                Step::Fresh(_) => 11,
+                Step::Add(_) => 12,
+                Step::Sub(_) => 13,
+            },
+            self.spec().fp(),
+        )
+    }
+}
+
+fn chain_json(kind: &str, steps: &[Step]) -> Value {
+    json!({"kind": kind, "mode": "chain", "steps": steps.iter().map(|s| s.to_json()).collect::<Vec<_>>()})
+}
+
+/// Merge chain `((x0 ⊔ x1) ⊔ x2) …` the way a fixpoint uses merge. Every step is judged by the
+/// pair oracle on the reachable state `(acc, x)`; in addition everything absorbed so far
+/// (as sets and as concrete witnesses) must stay represented, and re-merging any absorbed
+/// input must not enlarge the represented set.
+fn check_chain<D: Dom>(steps: &[Step], rep: &mut Report, track: bool) {
+    let kind = D::kind();
+    let Some(Step::Fresh(s0)) = steps.first() else { return };
+    let label = label_of::<D>(s0);
+    let Some((mut acc, mut gacc)) = build_checked::<D>(s0, rep) else { return };
+    let mut absorbed: Vec<(D, G, Vec<W>)> = vec![(acc.clone(), gacc.clone(), gacc.some_members())];
+    let mut fp = mix(crate::prng::hash_str(&kind), steps[0].fp());
+    for i in 1..steps.len() {
+        let Some((operand, goperand)) = build_checked::<D>(steps[i].spec(), rep) else { return };
+        let (x, gx) = match &steps[i] {
+            Step::Fresh(_) => (operand, goperand),
+            Step::Add(_) | Step::Sub(_) => {
+                let sub = matches!(steps[i], Step::Sub(_));
+                match guard(|| acc.arith(sub, &operand)) {
+                    Ok(Some(x)) => {
+                        let g = x.gamma();
+                        (x, g)
+                    }
+                    Ok(None) => return,
+                    Err(p) => {
+                        rep.inconclusive(&format!("chain:arith-panic:{}", panic_site(&p)));
+                        return;
+                    }
+                }
+            }
+        };
+        fp = mix(fp, steps[i].fp());
+        let case = || chain_json(&kind, &steps[..=i]);
+        let size = 50 * (i as u64 + 1) + steps[..=i].iter().map(|s| s.spec().size()).sum::<u64>();
+        let cx = Cx { label: &label, case: &case, size };
+        let Some((m, gm)) = check_values(&acc, &x, &gacc, &gx, &cx, rep) else { return };
+        absorbed.push((x.clone(), gx.clone(), gx.some_members()));
+        for (j, (xj, gj, ws)) in absorbed.iter().enumerate() {
+            let show = || format!("chain step {i}: input #{j} = {xj:?}; accumulated merge = {m:?}");
+            need(rep, &cx, gj, &gm, "chain-lost-absorbed", "γ(x_j) ⊆ γ(((x0⊔x1)⊔…)⊔x_i) for every absorbed j ≤ i", &show);
+            for w in ws {
+                rep.eval();
+                if !gm.member(w) {
+                    rep.violation(
+                        format!("{label}:chain-witness-lost"),
+                        None,
+                        format!("expected the concrete witness {w:?} of absorbed input #{j} ({xj:?}) to be represented after step {i}; observed accumulated merge {m:?}"),
+                        case(),
+                        size,
+                    );
+                }
+            }
+            match guard(|| m.merge(xj)) {
+                Ok(r) => {
+                    let gr = r.gamma();
+                    need(rep, &cx, &gr, &gm, "chain-unstable", "γ(m.merge(x_j)) ⊆ γ(m) for every input x_j that m already absorbed", &|| {
+                        format!("chain step {i}: m={m:?}, absorbed input #{j} = {xj:?}, m.merge(x_j)={r:?}")
+                    });
+                }
+                Err(p) => {
+                    rep.eval();
+                    rep.violation(format!("{label}:merge:panic:{}", panic_site(&p)), None, format!("m.merge(x_j) panicked: {p}; m={m:?} x_j={xj:?}"), case(), size);
+                }
+            }
+        }
+        let nontrivial = gx != gacc && !gm.is_everything();
+        if nontrivial {
+            rep.nontrivial(fp);
+        }
+        if track {
+            if kind == "iv" {
+                rep.obs(&format!("chain:{label}:{}", iv_class(&gacc, &gx, &gm)));
+            } else {
+                rep.obs(&format!("chain:{label}:{}", if gm.is_everything() { "everything" } else { "proper" }));
+            }
+        }
+        acc = m;
+        gacc = gm;
+    }
+    if track {
+        rep.obs(&format!("chain:{kind}:len{}", steps.len()));
+    }
+}
+
+// ---------------------------------------------------------------------------
+// Workload
+
+type DataIv = DataDomain<IntervalDomain>;
+type DataBv = DataDomain<BitvectorDomain>;
+
+/// Call a generic function for the domain type named by `kind`.
+macro_rules! dispatch {
+    ($kind:expr, $f:ident, $($a:expr),*) => {
+        match $kind {
+            "bv" => { $f::<BitvectorDomain>($($a),*); true }
+            "iv" => { $f::<IntervalDomain>($($a),*); true }
+            "taint" => { $f::<Taint>($($a),*); true }
+            "data_iv" => { $f::<DataIv>($($a),*); true }
+            "data_bv" => { $f::<DataBv>($($a),*); true }
+            "map_union_bv" => { $f::<DomainMap<u64, BitvectorDomain, UnionMergeStrategy>>($($a),*); true }
+            "map_union_iv" => { $f::<DomainMap<u64, IntervalDomain, UnionMergeStrategy>>($($a),*); true }
+            "map_union_data_iv" => { $f::<DomainMap<u64, DataIv, UnionMergeStrategy>>($($a),*); true }
+            "map_union_taint" => { $f::<DomainMap<u64, Taint, UnionMergeStrategy>>($($a),*); true }
+            "map_intersect_bv" => { $f::<DomainMap<u64, BitvectorDomain, IntersectMergeStrategy>>($($a),*); true }
+            "map_intersect_iv" => { $f::<DomainMap<u64, IntervalDomain, IntersectMergeStrategy>>($($a),*); true }
+            "map_intersect_data_iv" => { $f::<DomainMap<u64, DataIv, IntersectMergeStrategy>>($($a),*); true }
+            "map_mergetop_bv" => { $f::<DomainMap<u64, BitvectorDomain, MergeTopStrategy>>($($a),*); true }
+            "map_mergetop_iv" => { $f::<DomainMap<u64, IntervalDomain, MergeTopStrategy>>($($a),*); true }
+            "map_mergetop_data_iv" => { $f::<DomainMap<u64, DataIv, MergeTopStrategy>>($($a),*); true }
+            "map_mergetop_data_bv" => { $f::<DomainMap<u64, DataBv, MergeTopStrategy>>($($a),*); true }
+            "map_mergetop_taint" => { $f::<DomainMap<u64, Taint, MergeTopStrategy>>($($a),*); true }
+            "region_bv" => { $f::<MemRegion<BitvectorDomain>>($($a),*); true }
+            "region_iv" => { $f::<MemRegion<IntervalDomain>>($($a),*); true }
+            "region_data_iv" => { $f::<MemRegion<DataIv>>($($a),*); true }
+            "region_taint" => { $f::<MemRegion<Taint>>($($a),*); true }
+            _ => false,
+        }
+    };
+}
+
+/// (kind, relative weight of pair samples, relative weight of chains)
+const KINDS: &[(&str, u64, u64)] = &[
+    ("bv", 2, 1),
+    ("iv", 24, 12),
+    ("taint", 1, 1),
+    ("data_iv", 8, 4),
+    ("data_bv", 4, 2),
+    ("map_union_bv", 2, 1),
+    ("map_union_iv", 3, 1),
+    ("map_union_data_iv", 2, 1),
+    ("map_union_taint", 1, 1),
+    ("map_intersect_bv", 2, 1),
+    ("map_intersect_iv", 3, 1),
+    ("map_intersect_data_iv", 2, 1),
+    ("map_mergetop_bv", 2, 1),
+    ("map_mergetop_iv", 3, 1),
+    ("map_mergetop_data_iv", 2, 1),
+    ("map_mergetop_data_bv", 2, 1),
+    ("map_mergetop_taint", 1, 1),
+    ("region_bv", 3, 1),
+    ("region_iv", 4, 2),
+    ("region_data_iv", 3, 1),
+    ("region_taint", 1, 1),
+];
+
+fn run_pairs<D: Dom>(n: u64, rng: &mut Rng, rep: &mut Report) {
+    for _ in 0..n {
+        let w = *rng.pick(D::widths());
+        let a = D::gen(rng, w);
+        let b = if rng.chance(3, 5) { D::near(rng, &a) } else { D::gen(rng, w) };
+        if rng.bool() {
+            check_pair::<D>(&a, &b, rep, true);
+        } else {
+            check_pair::<D>(&b, &a, rep, true);
+        }
+    }
+}
+
+/// A small constant operand of the same kind and width as `s` (for `acc ± c` chain steps).
+fn small_const(rng: &mut Rng, s: &Spec) -> Option<Spec> {
+    let w = s.width();
+    let c = match rng.below(4) {
+        0 => 1,
+        1 => 1 + rng.below(8) as i128,
+        2 => *rng.pick(&[2i128, 4, 8, 16]),
+        _ => rng.range_i64(-4, 40) as i128,
+    };
+    let c = clampw(c, w);
+    match s {
+        Spec::Iv { .. } => {
+            if rng.chance(1, 5) {
+                let (s0, e0, st) = norm_iv(w, 0, c.abs(), 1 + rng.below(2));
+                Some(Spec::Iv { w, start: s0, end: e0, stride: st, lo: None, hi: None, delay: 0 })
+            } else {
+                Some(Spec::Iv { w, start: c, end: c, stride: 0, lo: None, hi: None, delay: 0 })
+            }
+        }
+        Spec::Bv { .. } => Some(Spec::Bv { w, val: Some(c) }),
+        Spec::Taint { .. } => Some(Spec::Taint { w, tainted: rng.chance(1, 4) }),
+        Spec::Data { abs, rel, .. } => {
+            // pointer arithmetic: an absolute constant of the offset domain
+            let proto = abs.as_deref().or_else(|| rel.first().map(|(_, s)| s));
+            let inner = match proto {
+                Some(p) => small_const(rng, p)?,
+                None => return None,
+            };
+            Some(Spec::Data { w, rel: vec![], abs: Some(Box::new(inner)), top: false })
+        }
+        Spec::Map(_) => None,
+    }
+}
+
+fn gen_chain<D: Dom>(rng: &mut Rng, max_len: usize) -> Vec<Step> {
+    let w = *rng.pick(D::widths());
+    let len = rng.range_usize(3, max_len);
+    let first = D::gen(rng, w);
+    let mut steps = vec![Step::Fresh(first.clone())];
+    let mut last = first.clone();
+    // a chain is either "loop-like" (mostly acc ± c) or "join-like" (mostly related fresh values)
+    let loop_like = rng.chance(2, 5);
+    let fixed_const = small_const(rng, &first);
+    for _ in 1..len {
+        let arith = if loop_like { rng.chance(4, 5) } else { rng.chance(1, 6) };
+        if arith {
+            let c = if rng.chance(2, 3) { fixed_const.clone() } else { small_const(rng, &first) };
+            if let Some(c) = c {
+                steps.push(if rng.chance(4, 5) { Step::Add(c) } else { Step::Sub(c) });
+                continue;
+            }
+        }
+        let s = match rng.below(8) {
+            0 => D::gen(rng, w),
+            1 | 2 => D::near(rng, &first),
+            _ => D::near(rng, &last),
+        };
+        last = s.clone();
+        steps.push(Step::Fresh(s));
+    }
+    steps
+}
+
+fn run_chains<D: Dom>(n: u64, max_len: usize, rng: &mut Rng, rep: &mut Report) {
+    for _ in 0..n {
+        let steps = gen_chain::<D>(rng, max_len);
+        check_chain::<D>(&steps, rep, true);
+    }
+}
+
+/// The 1-byte interval mini-universe: every well-formed (start,end,stride) over the value list.
+fn mini_universe(vals: &[i128]) -> Vec<(i128, i128, u64)> {
+    let mut out = Vec::new();
+    for (i, s) in vals.iter().enumerate() {
+        for e in &vals[i..] {
+            if s == e {
+                out.push((*s, *e, 0));
+            } else {
+                let len = (e - s) as u64;
+                for d in 1..=len {
+                    if len % d == 0 {
+                        out.push((*s, *e, d));
+                    }
+                }
+            }
+        }
+    }
+    out
+}
+
+fn mini_values(tier: Tier) -> Vec<i128> {
+    match tier {
+        Tier::Quick => vec![-128, -127, -126, -124, -120, -64, -3, -2, -1, 0, 1, 2, 3, 4, 63, 119, 123, 125, 126, 127],
+        Tier::Thorough => {
+            let mut v: Vec<i128> = (-128..=-121).collect();
+            v.extend(-4..=4);
+            v.extend([-64, -33, 31, 63, 64]);
+            v.extend(120..=127);
+            v.sort();
+            v
+        }
+    }
+}
+
+/// Harness self-test: the symbolic inclusion test for strided intervals (used for widths ≥ 2)
+/// must agree with the member-by-member bitmap inclusion on 1-byte triples (well-formed or not).
+fn oracle_selfcheck(rng: &mut Rng, n: u64, rep: &mut Report) {
+    for _ in 0..n {
+        let mut t = || {
+            let s = rng.range_i64(-128, 127) as i128;
+            let e = if rng.chance(1, 8) { rng.range_i64(-128, 127) as i128 } else { (s + rng.below(80) as i128).min(127) };
+            let st = *rng.pick(&[0u128, 1, 1, 2, 3, 4, 5, 6, 8, 16, 64, 127, 255]);
+            (s, e, st)
+        };
+        let (a, b) = (t(), t());
+        let by_members = RS::from_triple(1, a.0, a.1, a.2).missing_in(&RS::from_triple(1, b.0, b.1, b.2)).is_none();
+        let symbolic = RS::Str { w: 1, start: a.0, end: a.1, stride: a.2 }.missing_in(&RS::Str { w: 1, start: b.0, end: b.1, stride: b.2 }).is_none();
+        if by_members != symbolic {
+            rep.inconclusive("oracle-selfcheck:symbolic-inclusion-disagrees-with-members");
+            rep.note(format!("oracle self-check failed for {a:?} ⊆ {b:?}: members say {by_members}, symbolic says {symbolic}"));
+        }
+    }
+    rep.obs_n("oracle-selfcheck:pairs", n);
+}
+
+/// Deterministic probe: chains of strided intervals whose starts move down by one stride per
+/// step (every step is absorbed without widening because the new value contains the old one),
+/// for strides around 2^63/2^64 and widths 8 and 16. After two steps the distance between the
+/// accumulated start and the first input no longer fits 64 bits at width 16.
+fn wide_stride_probe(rep: &mut Report) {
+    let strides: [u64; 4] = [1 << 63, u64::MAX, (1 << 63) + 2, 3 << 61];
+    for w in [8u32, 16] {
+        for k in strides {
+            for base in [0i128, 129, -5] {
+                for n_steps in 3..=4usize {
+                    let kk = k as i128;
+                    let end = base + kk;
+                    if end > smax(w) || base - (n_steps as i128) * kk < smin(w) {
+                        continue;
+                    }
+                    let steps: Vec<Step> = (0..n_steps)
+                        .map(|i| Step::Fresh(Spec::Iv { w, start: base - (i as i128) * kk, end, stride: k, lo: None, hi: None, delay: 0 }))
+                        .collect();
+                    check_chain::<IntervalDomain>(&steps, rep, true);
+                }
+            }
+        }
+    }
+    rep.obs("wide-stride-probe");
+}
+
+#[derive(Clone, Debug)]
+enum Task {
+    WideStrideProbe,
+    SelfCheck,
+    BvExhaustive,
+    TaintExhaustive,
+    /// a-indices `i ≡ chunk (mod chunks)` of the mini-universe × all b
+    IvMini { chunk: usize, chunks: usize },
+    Pairs { kind: &'static str, n: u64 },
+    Chains { kind: &'static str, n: u64 },
+}
+
+fn run_task(task: &Task, cfg: &Cfg, rng: &mut Rng, rep: &mut Report) {
+    match task {
+        Task::WideStrideProbe => wide_stride_probe(rep),
+        Task::SelfCheck => oracle_selfcheck(rng, 200_000, rep),
+        Task::BvExhaustive => {
+            let all: Vec<Spec> = std::iter::once(Spec::Bv { w: 1, val: None }).chain((-128i128..=127).map(|x| Spec::Bv { w: 1, val: Some(x) })).collect();
+            for (i, a) in all.iter().enumerate() {
+                for (j, b) in all.iter().enumerate() {
+                    check_pair::<BitvectorDomain>(a, b, rep, (i + j) % 64 == 0);
+                }
+            }
+            rep.exhaustive_parts.push("all pairs of 1-byte BitvectorDomain values (Top + 256 values)".into());
+        }
+        Task::TaintExhaustive => {
+            for w in [1u32, 2, 4, 8] {
+                for a in [false, true] {
+                    for b in [false, true] {
+                        check_pair::<Taint>(&Spec::Taint { w, tainted: a }, &Spec::Taint { w, tainted: b }, rep, true);
+                    }
+                }
+            }
+            rep.exhaustive_parts.push("all pairs of Taint values for sizes 1/2/4/8".into());
+        }
+        Task::IvMini { chunk, chunks } => {
+            let vals = mini_values(cfg.tier);
+            let uni = mini_universe(&vals);
+            let pick4 = |h: u64, opts: [Option<i128>; 4]| opts[(h & 3) as usize].map(|x| clampw(x, 1));
+            for (i, a) in uni.iter().enumerate() {
+                if i % chunks != *chunk {
+                    continue;
+                }
+                for (j, b) in uni.iter().enumerate() {
+                    // configuration A: no hints, delay above every 1-byte length ⇒ the plain strided hull
+                    let a1 = Spec::Iv { w: 1, start: a.0, end: a.1, stride: a.2, lo: None, hi: None, delay: 255 };
+                    let b1 = Spec::Iv { w: 1, start: b.0, end: b.1, stride: b.2, lo: None, hi: None, delay: 255 };
+                    check_pair::<IntervalDomain>(&a1, &b1, rep, (i + j) % 97 == 0);
+                    // configuration B: hints and small delays derived from the pair index ⇒ widening paths
+                    let h = mix(i as u64, j as u64);
+                    let la = (a.1 - a.0) as u64;
+                    let lb = (b.1 - b.0) as u64;
+                    let a2 = Spec::Iv {
+                        w: 1,
+                        start: a.0,
+                        end: a.1,
+                        stride: a.2,
+                        lo: pick4(h, [None, Some(a.0 - 1), Some(a.0 - 8), Some(-128)]),
+                        hi: pick4(h >> 2, [None, Some(a.1 + 1), Some(a.1 + 7), Some(127)]),
+                        delay: [0, 1, 3, la][(h >> 4 & 3) as usize],
+                    };
+                    let b2 = Spec::Iv {
+                        w: 1,
+                        start: b.0,
+                        end: b.1,
+                        stride: b.2,
+                        lo: pick4(h >> 6, [None, Some(b.0 - 1), Some(b.0 - 5), Some(-100)]),
+                        hi: pick4(h >> 8, [None, Some(b.1 + 1), Some(b.1 + 9), Some(100)]),
+                        delay: [0, 0, 2, lb][(h >> 10 & 3) as usize],
+                    };
+                    check_pair::<IntervalDomain>(&a2, &b2, rep, (i + j) % 97 == 1);
+                }
+            }
+            if *chunk == 0 {
+                rep.exhaustive_parts.push(format!(
+                    "all ordered pairs of the 1-byte interval mini-universe ({} intervals = every well-formed (start,end,stride) over {} boundary values), each with (no hints, no widening) and (index-derived hints and delays), γ by all 256 members",
+                    uni.len(),
+                    vals.len()
+                ));
+            }
+        }
+        Task::Pairs { kind, n } => {
+            if !dispatch!(*kind, run_pairs, *n, rng, rep) {
+                rep.note(format!("unknown kind {kind}"));
+            }
+        }
+        Task::Chains { kind, n } => {
+            let max_len = cfg.tier.pick(6usize, 9usize);
+            if !dispatch!(*kind, run_chains, *n, max_len, rng, rep) {
+                rep.note(format!("unknown kind {kind}"));
+            }
+        }
+    }
+}
+
+fn run(cfg: &Cfg) -> Report {
+    let mut tasks = vec![Task::WideStrideProbe, Task::SelfCheck, Task::BvExhaustive, Task::TaintExhaustive];
+    let chunks = 48;
+    for chunk in 0..chunks {
+        tasks.push(Task::IvMini { chunk, chunks });
+    }
+    // sampled part: `unit` pair samples per weight unit, split in shards of bounded size
+    let unit = cfg.tier.pick(8_000u64, 200_000u64);
+    let chain_unit = cfg.tier.pick(1_600u64, 40_000u64);
+    let shard = cfg.tier.pick(3_000u64, 15_000u64);
+    for (kind, wp, wc) in KINDS {
+        let mut left = unit * wp;
+        while left > 0 {
+            let n = left.min(shard);
+            tasks.push(Task::Pairs { kind, n });
+            left -= n;
+        }
+        let mut left = chain_unit * wc;
+        while left > 0 {
+            let n = left.min(shard / 4);
+            tasks.push(Task::Chains { kind, n });
+            left -= n;
+        }
+    }
+    // interleave heavy and light shards deterministically
+    let mut order: Vec<usize> = (0..tasks.len()).collect();
+    Rng::derive(0xC03, "task-order", 0).shuffle(&mut order);
+    let tasks: Vec<Task> = order.into_iter().map(|i| tasks[i].clone()).collect();
+    par_shards(cfg, "c03", tasks.len(), |idx, rng, rep| run_task(&tasks[idx], cfg, rng, rep))
+}
+
+fn replay_pair<D: Dom>(a: &Spec, b: &Spec, rep: &mut Report) {
+    check_pair::<D>(a, b, rep, true);
+}
+fn replay_chain<D: Dom>(steps: &[Step], rep: &mut Report) {
+    check_chain::<D>(steps, rep, true);
+}
+
+fn replay(_cfg: &Cfg, case: &Value) -> Report {
+    let mut rep = Report::new();
+    let kind = case["kind"].as_str().unwrap_or("").to_string();
+    match case["mode"].as_str().unwrap_or("") {
+        "pair" => match (Spec::from_json(&case["a"]), Spec::from_json(&case["b"])) {
+            (Some(a), Some(b)) => {
+                if !dispatch!(kind.as_str(), replay_pair, &a, &b, &mut rep) {
+                    rep.note("unknown kind in replay case");
+                }
+            }
+            _ => rep.note("unparsable pair case"),
+        },
+        "chain" => {
+            let steps: Option<Vec<Step>> = case["steps"].as_array().map(|v| v.iter().map(Step::from_json).collect()).unwrap_or(None);
+            match steps {
+                Some(steps) => {
+                    if !dispatch!(kind.as_str(), replay_chain, &steps, &mut rep) {
+                        rep.note("unknown kind in replay case");
+                    }
+                }
+                None => rep.note("unparsable chain case"),
+            }
+        }
+        _ => rep.note("unknown replay case mode"),
+    }
+    rep
 }
